@@ -4,7 +4,7 @@ from __future__ import annotations
 import typing
 
 from .. import scen, vrt
-from ..chx.api import P, harness, ladder, pick, shard
+from ..chx.api import P, concrete, harness, ladder, pick, shard
 from .common import Setup
 
 import httpcore
@@ -75,6 +75,13 @@ def h1_wire(m: int, t: int, hs: int, b: int, reuse: bool) -> None:
     target = pick(t, TARGETS)
     headers = list(pick(hs, HEADER_SETS))
     kind = pick(b, BODIES)
+    hsi = ladder(hs, 0, 6)
+    reuse = bool(reuse)
+    with concrete(method, target, kind, hsi, reuse):
+        _h1_wire(is_async, method, target, headers, kind, hsi, reuse)
+
+
+def _h1_wire(is_async: bool, method: str, target: typing.Any, headers: list, kind: str, hsi: int, reuse: bool) -> None:
     su = Setup("h11", is_async, max_connections=1)
     ext: dict[str, typing.Any] = {"timeout": {"pool": 0, "read": 5, "write": 5, "connect": 5}}
     if target is not None:
@@ -92,7 +99,7 @@ def h1_wire(m: int, t: int, hs: int, b: int, reuse: bool) -> None:
         content, body_bytes, kind = (b"abcd", b"abcd", "bytes")  # keep the declared length truthful
     o = su.api.request(su.pool, method, su.url("p?q=1"), headers=headers, content=content, extensions=ext)
     P.note(outcome=o.kind(), method=method, target=target, headers=headers, body=kind)
-    illegal = method == "BAD METHOD" or ladder(hs, 0, 6) in (5, 6)
+    illegal = method == "BAD METHOD" or hsi in (5, 6)
     if illegal:
         P.cover("illegal-head-rejected")
         P.check(isinstance(o.exc, httpcore.LocalProtocolError), "illegal-head-gives-LocalProtocolError",
@@ -151,6 +158,12 @@ def h2_wire(m: int, t: int, hs: int, b: int, reuse: bool) -> None:
     target = pick(t, TARGETS)
     headers = list(pick(hs, HEADER_SETS))
     kind = pick(b, BODIES)
+    reuse = bool(reuse)
+    with concrete(method, target, kind, reuse):
+        _h2_wire(is_async, method, target, headers, kind, reuse)
+
+
+def _h2_wire(is_async: bool, method: str, target: typing.Any, headers: list, kind: str, reuse: bool) -> None:
     su = Setup(shard("ct", "h2"), is_async, max_connections=1)
     ext: dict[str, typing.Any] = {"timeout": {"pool": 0, "read": 5, "write": 5, "connect": 5}}
     if target is not None:
